@@ -226,7 +226,49 @@ func (o c20obs) coq() string {
 	return fmt.Sprintf("(%d, %s, %s)", o.err, coqList(os), coqList(ls))
 }
 
+// c20DirectStart: the predicate with which the next round of direct calls begins -- the one the previous
+// round ended with, so that the first goal executed after an operation is the last one executed before it
+var c20DirectStart int
+var c20DirectDiff string
+
+// c20Direct calls every predicate as the query goal itself (no findall around it), in rotating order
+func c20Direct(p *prolog.Interpreter) [][]int {
+	res := make([][]int, len(c20Preds))
+	n := len(c20Preds)
+	last := c20DirectStart
+	for k := 0; k < n; k++ {
+		i := (c20DirectStart + k) % n
+		last = i
+		pi := c20Preds[i]
+		goal := fmt.Sprintf("%s(X) .", pi.name)
+		if pi.arity == 2 {
+			goal = fmt.Sprintf("%s(X, _) .", pi.name)
+		}
+		out := runQuery(p, 200, []string{"X"}, goal)
+		if out.Err != nil || out.GoErr != "" {
+			res[i] = nil
+			continue
+		}
+		l := []int{}
+		for _, a := range out.Answers {
+			l = append(l, int(a["X"].I))
+		}
+		res[i] = l
+	}
+	c20DirectStart = last
+	return res
+}
+
 func c20Listing(p *prolog.Interpreter) [][]int {
+	direct := c20Direct(p)
+	res := c20ListingFindall(p)
+	if c20DirectDiff == "" && fmt.Sprint(direct) != fmt.Sprint(res) {
+		c20DirectDiff = fmt.Sprintf("called directly: %v; through findall/3: %v", direct, res)
+	}
+	return res
+}
+
+func c20ListingFindall(p *prolog.Interpreter) [][]int {
 	var res [][]int
 	for _, pi := range c20Preds {
 		goal := fmt.Sprintf("%s(X)", pi.name)
@@ -412,6 +454,11 @@ func runC20(outDir string, seed int64, tier string) {
 			desc := map[string]interface{}{"history": append([]string{}, texts...), "text": strings.Join(texts, "\n")}
 			mustFail, initFails, want, newMulti := c20Expect(items, before, multi)
 			errs := fmt.Sprint(err)
+			if c20DirectDiff != "" {
+				// what a predicate answers when it is the query goal itself is what it answers inside findall/3
+				sum.Failures = append(sum.Failures, failure{ID: id, Class: "load:direct-call-differs-from-listing", Input: desc, Observed: c20DirectDiff, Expected: "the same clauses either way"})
+				c20DirectDiff = ""
+			}
 			switch {
 			case mustFail:
 				sum.count("text:faulty:" + label)
